@@ -1098,7 +1098,7 @@ def run_c12(ctx):
     res = Result()
     res.rule = ("(a) library histories with store/load (KB-level model, behaviour of loaded instances vs model vs from-scratch semantics, store->load->store->load); "
                 "(b) byte level: every stream the real StoreKnowledgeBaseToWriter produced is decoded by the Lean decoder, must re-encode to the identical bytes, "
-                "and real loader and model loader must agree on accept/reject at cut offsets (quick: 0..24, the last 24, 120 random; thorough: every offset); "
+                "and real loader and model loader must agree on accept/reject at cut offsets (quick: 0..24, the last 24, 120 random; thorough: every offset of the shortest streams up to 40 000 loads, 1 000 offsets of each other stream); "
                 "(c) a writer failing at its k-th Write call makes the store fail (k = 0..writes-1, sampled in quick); non-trivial = distinct (stream, cut) pairs")
     # (a)
     sub = run_lib(ctx, "C12")
@@ -1121,7 +1121,8 @@ def run_c12(ctx):
         base.append(sc)
     go = pl.run_go(base, jobs=ctx.jobs)
     wire = []
-    for sc, g in zip(base, go):
+    budget = [40000]
+    for sc, g in sorted(zip(base, go), key=lambda p: len(((p[1].get("res") or [{}])[-1].get("hex")) or "")):
         st = g.get("res", [{}])[-1]
         h = st.get("hex")
         if not h:
@@ -1131,14 +1132,17 @@ def run_c12(ctx):
         if st.get("failStoreErr") is False and st.get("writes", 0) > sc["ops"][-1]["failAt"]:
             res.violations.append({"signature": "monitor:store-succeeds-with-failing-writer", "detail": "failAt %d of %d writes" % (sc["ops"][-1]["failAt"], st.get("writes")), "scenario": sc})
         n = len(h) // 2
-        if ctx.tier == "thorough":
-            cuts = list(range(0, n + 1))
+        if ctx.tier == "thorough" and budget[0] >= n + 1:
+            cuts = list(range(0, n + 1))          # every offset, while the budget of 40 000 loads lasts
+            budget[0] -= n + 1
+        elif ctx.tier == "thorough":
+            cuts = sorted(set(list(range(0, min(200, n))) + list(range(max(0, n - 200), n + 1)) + [rng.below(n) for _ in range(600)]))
         else:
             cuts = sorted(set(list(range(0, min(25, n))) + list(range(max(0, n - 24), n + 1)) + [rng.below(n) for _ in range(120)]))
-        ops = [{"op": "wire", "hex": h}] + [{"op": "loadhex", "hex": h, "cut": k, "probe": True} for k in cuts]
-        # keep scenarios small: split the cut list
-        for j in range(0, len(ops), 400):
-            wire.append({"id": "%s-w%d" % (sc["id"], j), "ops": ops[j:j + 400], "n": n})
+        # the stream is sent once per scenario (a `wire` op), the cuts refer to it
+        cutops = [{"op": "loadhex", "cut": k, "probe": True} for k in cuts]
+        for j in range(0, len(cutops), 400):
+            wire.append({"id": "%s-w%d" % (sc["id"], j), "ops": [{"op": "wire", "hex": h}] + cutops[j:j + 400], "n": n, "hex": h})
     gw = pl.run_go(wire, jobs=ctx.jobs)
     lw = pl.run_lean(wire, jobs=ctx.jobs)
     for sc, g, l in zip(wire, gw, lw):
@@ -1152,7 +1156,7 @@ def run_c12(ctx):
                 res.count("streams-decoded")
                 if not (lr.get("decoded") and lr.get("reencodeEqual") and lr.get("rest") == 0):
                     res.corr_details.append({"id": sc["id"], "status": "mismatch", "detail": "model decoder vs real stream: %s" % json.dumps(lr)[:300],
-                                             "scenario": {"id": sc["id"], "hex": op["hex"][:2000]}})
+                                             "scenario": {"id": sc["id"], "hex": sc["hex"][:2000]}})
                     res.corr_broken = True
                 continue
             res.corr_compared += 1
@@ -1163,13 +1167,13 @@ def run_c12(ctx):
                 res.distinct_nontrivial += 1
             if gr.get("ok") != lr.get("ok"):
                 res.corr_details.append({"id": sc["id"], "status": "mismatch", "detail": "cut %d of %d: real loader ok=%s, model ok=%s" % (k, sc["n"], gr.get("ok"), lr.get("ok")),
-                                         "scenario": {"id": sc["id"], "cut": k, "hex": op["hex"]}})
+                                         "scenario": {"id": sc["id"], "cut": k, "hex": sc["hex"]}})
                 res.corr_broken = True
             if k < sc["n"] and gr.get("ok"):
                 res.violations.append({"signature": "monitor:truncated-stream-loads", "detail": "stream of %d bytes cut at %d loads without error (rules %s, instance ok %s)" % (
-                    sc["n"], k, gr.get("nrules"), gr.get("instOk")), "scenario": {"id": sc["id"], "cut": k, "hex": op["hex"]}})
+                    sc["n"], k, gr.get("nrules"), gr.get("instOk")), "scenario": {"id": sc["id"], "cut": k, "hex": sc["hex"]}})
             if k == sc["n"] and not gr.get("ok"):
-                res.violations.append({"signature": "monitor:complete-stream-rejected", "detail": "the complete stream (%d bytes) is rejected" % sc["n"], "scenario": {"id": sc["id"], "hex": op["hex"]}})
+                res.violations.append({"signature": "monitor:complete-stream-rejected", "detail": "the complete stream (%d bytes) is rejected" % sc["n"], "scenario": {"id": sc["id"], "hex": sc["hex"]}})
             res.count("cut-rejected" if not gr.get("ok") else "complete-accepted")
     if len(res.samples) < 2:
         res.samples.append({"streams": len(base), "cuts": res.distinct_nontrivial})
